@@ -769,6 +769,30 @@ def gen_whole(ck, r, seeds, budget):
             for leaf in ls[:: max(1, len(ls) // 6)]:
                 for n in (65535, 65536, 65536 + 30):
                     add(op, der.resized(ts, leaf, n), None, "resize-leaf-64k", name)
+    # PKCS#12 / PKCS#8 / PKCS#1 / EC keys: the same length-consistent resize of every leaf (always in the quick tier):
+    # block sizes 8/16 +-1, digest/salt sizes 20/32/64 +-1, 8-bit and MAX_* boundaries
+    klens = [0, 1, 3, 4, 7, 8, 9, 15, 16, 17, 19, 20, 21, 24, 31, 32, 33, 63, 64, 65, 127, 128, 129, 255, 256, 257, 288, 511, 512, 513, 540, 1024]
+    kseen = {}
+    for name, op, b, extra in sorted(seeds, key=lambda x: (0 if (x[3] and x[0].startswith("samples/")) else 1)):     # password-protected samples first
+        if op not in ("p12", "pkcs8") and not (op == "privkey" and len(b) < 1300):
+            continue
+        kseen[op] = kseen.get(op, 0) + 1
+        if kseen[op] > (8 if op == "p12" else 6) and ck.tier != "thorough":
+            continue
+        ts = der.tree(b)
+        if not ts: continue
+        ls = der.leaves(ts)
+        if op == "privkey": ls = ls[:12]
+        if op in ("p12", "pkcs8"):      # iteration counts (1-2 byte INTEGERs): largest 31-bit value and just above the accepted maximum
+            for leaf in [l for l in ls if l.tag == 0x02 and 1 <= len(l.content) <= 2]:
+                for v in (b"\x7f\xff\xff\xff", b"\x00\x98\x96\x81", b"\x00", b"\xff"):
+                    old_c = leaf.content; leaf.content = v
+                    add(op, b"".join(t.enc() for t in ts), extra, "iteration-count", name)
+                    leaf.content = old_c
+        for li, leaf in enumerate(ls):
+            for ni, n in enumerate(klens):
+                if ck.tier != "thorough" and (li + ni) % (4 if op == "p12" else 2): continue
+                add(op, der.resized(ts, leaf, n), extra, "resize-leaf:%02x" % leaf.tag, name)
     derseeds = [s for s in seeds if s[1] not in ("certdata", "keys")]
     pemseeds = [s for s in seeds if s[1] in ("certdata", "keys")]
     offcache = {}
@@ -901,6 +925,7 @@ def run(ck):
                     "Integer-width boundaries: every length-consuming routine (asnCopyOid 0..600 and 2^16+k into a guarded 32-byte block, OID/INTEGER/SEQUENCE/SET headers, GeneralName and otherName type-id, DN value / attribute-type OID / attribute count, base64 length) is driven with lengths 0..35, 250..291, 508..545, 2^16-2..2^16+256 whose octets are really present; whole certificates: every leaf of a certificate carrying every parsed extension kind is resized, with all enclosing lengths re-encoded consistently, to 29..33, 126..129, 253..259, 283..289, 510..514, 540..544, 1023..1025, 4095..4097 octets (OIDs: each length), CRL leaves also to 2^16+k. "
                     "Encrypted PEM (psPemDecode with a password argument): IV digit counts 0..40 for both ciphers in place, before BEGIN and as the very last bytes of the buffer after the END line, non-hex characters at each IV position, unknown cipher names, bodies of 0..64 bytes around the block sizes, LF/CRLF/CR, 14 header orders (DEK-Info before/after/without Proc-Type, doubled), two DEK-Info lines, Proc-Type variants, every truncation point, passwords none/empty/right/wrong, header-zone mutations of the encrypted samples. "
                     "Key loading: every certificate x every key (own, foreign, RSA/EC crossed), chains of 1-3 in right/wrong order, unauthenticated chains, CA bundles with truncated / MD4 / bad-signature members, PEM and concatenated DER, three loaders, then matrixSslDeleteKeys; plus ASN.1-aware mutations of one component. "
+                    "PKCS#12 / PKCS#8 / small private keys (always in the quick tier): every leaf of the password-protected samples (3DES-encrypted, plaintext-bag and EC PKCS#12; PBES2 PKCS#8) resized length-consistently to 0,1,3,4,7..9,15..17,19..21,24,31..33,63..65,127..129,255..257,288,511..513,540,1024 octets; iteration counts set to 2^31-1 / max+1 / 0 / negative. "
                     "A modelled case is non-trivial when the library accepts it")
     # ---- modelled functions: model vs sanitizer build (authoritative) and vs plain build (run concurrently)
     res = {}
@@ -922,7 +947,7 @@ def run(ck):
         res["asan"] = run_faulting(ck, ha, mcases, env=ASAN_ENV, label="asan/modelled")
         ck.log("asan harness: %d modelled cases in %.1fs, %d faults" % (len(mcases), time.time() - t1, len(res["asan"][1])))
     wcorp = [c for c in corp if not is_model_case(c)]
-    wcases, meta = gen_whole(ck, ck.rng("whole"), seeds, ck.budget(7500, 120000))
+    wcases, meta = gen_whole(ck, ck.rng("whole"), seeds, ck.budget(12000, 120000))
     kcases, kmeta = gen_keyload(ck, ck.rng("keyload"), ck.budget(1500, 12000))
     pcases, pmeta = gen_pkfile(ck, ck.rng("pkfile"), ck.budget(250, 3000), enc_samples)
     wcases = wcorp + wcases + kcases + pcases; meta = [(c.split(" ", 1)[0], "corpus", "corpus") for c in wcorp] + meta + kmeta + pmeta
